@@ -1,0 +1,5 @@
+//go:build !verif
+
+package connlimit
+
+func verifEmit(string, interface{}, ...interface{}) {}
